@@ -226,6 +226,52 @@ def rule_dynamic_clause_templates(ctx):
             r.check(ok and len(adds) == 1, b.id, "no-a-implies-not-Pa", "creating an argument under CO|PR adds (-a or -P_a) on its two fresh variables", "new_argument does not add the clause -a or -P_a on the two freshly allocated variables under CO|PR", b.loc())
 
 
+def bundled_tables(prog, adt):
+    """per-argument tables kept as one vector of a private struct (`Vec<ArgVars>` with `Option<usize>` fields): [(field, struct path, [sub-fields])]"""
+    out = []
+    for v in adt["variants"]:
+        for f in v["fields"]:
+            m = re.match(r"^alloc::vec::Vec<([A-Za-z_0-9:]+)>$", f["ty"].replace(" ", ""))
+            if not m:
+                continue
+            sa_ = prog.adt(m.group(1))
+            if not sa_ or len(sa_["variants"]) != 1:
+                continue
+            subs = [g["name"] for g in sa_["variants"][0]["fields"] if g["ty"].replace(" ", "") == "core::option::Option<usize>"]
+            if subs:
+                out.append((f["name"], m.group(1), subs))
+    return out
+
+
+def adds_clauses_of_param(prog, t):
+    """k when the function adds, in a loop, every clause of its parameter k (a `Vec<Vec<Literal>>`): `fn add_clauses(&self, clauses)`"""
+    for s2 in t.calls():
+        if not callee_matches(callee_of(s2), r"sat_solver::SatSolver::add_clause$") or not t.in_loop(s2.bb):
+            continue
+        for o in origins(t, s2.node["args"][1], transparent=()):
+            if o.kind == "call" and callee_decl(o.data) == "core::iter::traits::iterator::Iterator::next":
+                for oo in origins(t, o.site.node["args"][0], transparent=("core::iter::traits::collect::IntoIterator::into_iter", "core::slice::iter", "core::slice::<impl [T]>::iter", "core::ops::deref::Deref::deref")):
+                    if oo.kind == "param" and not oo.fields and "Vec<alloc::vec::Vec<sat::sat_solver::Literal>>" in t.local_ty(oo.data).replace(" ", ""):
+                        return oo.data
+    return None
+
+
+def clauses_of_vec_literal(prog, body, op):
+    """the operands holding the clauses of a `vec![cl1, cl2, ..]` handed over as a `Vec<Vec<Literal>>`; None when it is not such a literal"""
+    out = None
+    for o in origins(body, op, transparent=()):
+        if o.kind == "call" and callee_decl(o.data) == "alloc::boxed::box_assume_init_into_vec_unsafe":
+            for oo in origins(body, o.site.node["args"][0], transparent=()):
+                if oo.kind == "call" and oo.site is not None:
+                    for st in body.ptr_store_defs.get(oo.site.node["dst"]["l"], []):
+                        rv = st.node["rv"]
+                        if rv["k"] == "aggregate" and rv["agg"]["kind"] == "array":
+                            out = (out or []) + list(rv["ops"])
+        else:
+            return None
+    return out
+
+
 def rule_dynamic_variable_registration(ctx):
     """C08: what both dynamic encoders do when an argument is created or removed"""
     prog = ctx.prog
@@ -308,6 +354,17 @@ def rule_dynamic_variable_registration(ctx):
             t = prog.body_for_callee(c, rm) if c and c.get("decl") != "<indirect>" else None
             if t is None or t.kind == "closure" or not t.impl or t.impl.get("self_adt") != p:
                 continue
+            kk = adds_clauses_of_param(prog, t)
+            if kk is not None and kk - 1 < len(s.node["args"]):
+                cls = clauses_of_vec_literal(prog, rm, s.node["args"][kk - 1])
+                if cls is None:
+                    shapes.append(["+unk"])
+                else:
+                    for co in cls:
+                        els2 = cnf.clause_elements(cx, rm, co)
+                        shapes.append(sorted("%s%s" % (sg, kd[0]) for sg, kd, nd, m in els2))
+                adds.append(s)
+                continue
             for s2 in t.calls():
                 if not callee_matches(callee_of(s2), r"sat_solver::SatSolver::add_clause$"):
                     continue
@@ -340,10 +397,14 @@ def rule_dynamic_variable_registration(ctx):
         for s in b.calls():
             if callee_decl(callee_of(s)) != "alloc::vec::Vec::push":
                 continue
-            if "Option<usize>" not in str(callee_of(s).get("substs")):
+            bundles = [bp for _, bp, _ in bundled_tables(prog, prog.adt(fnb.impl.get("self_adt")))]
+            if "Option<usize>" not in str(callee_of(s).get("substs")) and not any(bp in str(callee_of(s).get("substs")) for bp in bundles):
                 continue
-            # pushes Some(var) on the id -> variable table (a field of self)
+            # pushes Some(var) on the id -> variable table (a field of self), or a bundle of per-argument variables holding Some(var)
             is_some = any(o.kind == "agg" and o.data.get("variant") == "Some" for o in origins(b, s.node["args"][1], transparent=()))
+            for o in origins(b, s.node["args"][1], transparent=()):
+                if o.kind == "agg" and o.data.get("path") in bundles:
+                    is_some = is_some or any(oo.kind == "agg" and oo.data.get("variant") == "Some" for x in o.site.node["rv"]["ops"] for oo in origins(b, x, transparent=()))
             if not is_some:
                 continue
             n_c += 1
@@ -389,6 +450,11 @@ def rule_removal_cleans_the_tables(ctx):
                         bodies.append(y)
         opt_tables = [f["name"] for v in adt["variants"] for f in v["fields"] if f["ty"].replace(" ", "") == "alloc::vec::Vec<core::option::Option<usize>>"]
         kind_tables = [f["name"] for v in adt["variants"] for f in v["fields"] if re.search(r"Vec<.*SolverVarType>", f["ty"])]
+        bt = bundled_tables(prog, adt)
+        if not opt_tables and bt:
+            n += 1 + sum(len(x[2]) for x in bt)
+            r.ok(rm.id + "|tables", "NOT decided: the per-argument tables of %s are kept as one vector of %s (%s): entries that are fields of an indexed element are not followed" % (p.rsplit("::", 1)[-1], bt[0][1].rsplit("::", 1)[-1], ", ".join(bt[0][2])), rm.loc())
+            continue
         stores = [(y, st) for y in bodies for st in indexed_stores(prog, y)]
 
         def field_of(y, op):
